@@ -1,7 +1,7 @@
 /* Event log shared by unit.cpp (C++) and contract.c (C): capacity and event kinds. */
 #ifndef EVALSOL_EVENTS_H
 #define EVALSOL_EVENTS_H
-#define NEV 20
+#define NEV 8
 /* event kinds */
 enum
 {
@@ -25,6 +25,12 @@ enum
    K_SETBASISVEC = 18,  /* _solver.setBasis(rows, cols) */
    K_TOGGLEVALUE = 19,  /* _solver.toggleTerminationValue(arg) */
    K_UNSCALELP = 20,    /* _solver.unscaleLPandReloadBasis() */
-   K_COPYSOL = 21       /* _solReal.<vector> = _simplifier->unsimplified<Vector>(); arg = 1..4 iff source matches target */
+   K_COPYSOL = 21,      /* (unused) */
+   /* kinds used by the by-kind log of the _storeSolutionReal instance */
+   K_GETPRIMAL = 22, K_GETSLACKS = 23, K_GETDUAL = 24, K_GETREDCOST = 25,   /* _solver.getPrimalSol/getSlacks/getDualSol/getRedCostSol(v): arg = 1 iff v is the matching _solReal vector, arg2 = v.dim() */
+   K_COPYSOL0 = 25,     /* K_COPYSOL0 + k (k = 1..4): _solReal.<k-th vector> = _simplifier->unsimplified<Vector>(): arg = 1 iff source matches target */
+   K_UNSCALE_INT = 30,  /* _unscaleSolutionReal(LP, false): arg = 1 iff LP is _solver */
+   K_UNSCALE_PERS = 31, /* _unscaleSolutionReal(LP, true):  arg = 1 iff LP is _solver */
+   NKIND = 32
 };
 #endif
